@@ -611,7 +611,7 @@ def create_meanfield(
                         # variance \alpha/\beta^2=0.01*tensor
                         tensor = torch.tensor(json_object["tensor"])
                         log_concentration = (tensor / 0.01).log().tolist()
-                        log_rate = torch.log(1.0 / 0.01).tolist()
+                        log_rate = torch.log(torch.tensor(1.0 / 0.01)).tolist()
                         distr, concentration, rate = create_gamma_distribution(
                             var_id,
                             json_object['id'],
